@@ -140,7 +140,7 @@ for _f in ("add_lp1_term_fwd", "add_lp1_term_bwd", "add_lp1_term_onsite_fwd", "a
     # the l+1 steps address four distinct columns of rows of length nf (LCAOInterpolator: scratch / x / y / z slots of the feature block)
     EXTRA_REQUIRES[_f] = _cols
 MONOTONE.update({"add_lp1_term_onsite_fwd": ["ar_loc"], "add_lp1_term_onsite_bwd": ["ar_loc"],
-                 "project_spline_to_conv": ["atco.ao_loc"], "SDMXylm_yzx2xyz": ["ylm_atom_loc"]})
+                 "project_spline_to_conv": ["atco.ao_loc"], "SDMXylm_yzx2xyz": ["ylm_atom_loc"], "SDMXylm_grad": ["ylm_atom_loc"], "SDMXylm_loop": ["ylm_atom_loc"]})
 EXTRA_REQUIRES["project_spline_to_conv"] = lambda a: [tm.mk_le(tm.ZERO, a["offset_orb"]), tm.mk_le(a["offset_orb"] + a["nalpha"], a["orb_stride"])]
 for _f in ("SDMXcontract_ao_to_bas", "SDMXcontract_ao_to_bas_bwd", "SDMXcontract_ao_to_bas_l1", "SDMXcontract_ao_to_bas_l1_bwd"):
     RANGE[_f] = {"rf_loc": lambda a: (tm.ZERO, a["nrf"] + 1)}
@@ -173,6 +173,9 @@ SKIP = {
     "contract_orb_to_rad": "needs shell-size invariants ((l+1)^2 <= nlm)", "contract_rad_to_orb_num": "uloc_l / jloc_l scratch tables built inside the region",
     "contract_orb_to_rad_num": "needs (l+1)^2 <= nlm", "write_fft_input": "covered by C20 (layout arithmetic with the plan struct)", "read_fft_output": "covered by C20",
     "SDMXylm_yzx2xyz": "div/mod decomposition of a collapsed (atom, block) index with a per-component stride: undecided by z3/cvc5 within budget",
+    "SDMXylm_grad": "same collapsed (atom, block) decomposition plus (lmax+1)^2 <= nlm from an integer square root: 27 of 46 pairs decided, the rest solver-unknown within budget "
+                    "(its value contract is under C06; with ylm_atom_loc monotone no pair is refuted)",
+    "SDMXylm_loop": "same collapsed (atom, block) decomposition; calls recursive_sph_harm on a per-thread buffer (value contract of the harmonics under C06)",
 }
 
 
@@ -385,6 +388,9 @@ def independence(ctx, label, sym, hyps, hy_tab, fq):
                                                                 "" if same_construct else " across constructs of one barrier phase", n)
             if r == "unsat":
                 ctx._rec("obligation", name, vc.Verdict("discharged", be), fq)
+            elif r == "sat" and any(u.op == "f" and u.args[0] not in ("idiv", "imod") for c in cs for u in tm.subterms(tm.lift(c)).values()):
+                # the counter-model interprets a real-valued function (trunc, sqrt, an array read ...) freely: not a refutation
+                ctx.undecided(name, "solver model relies on a free interpretation of %s" % sorted(set(u.args[0] for c in cs for u in tm.subterms(tm.lift(c)).values() if u.op == "f" and u.args[0] not in ("idiv", "imod")))[:3], fq)
             elif r == "sat":
                 ctx._rec("obligation", name, vc.Verdict("refuted", be, "two different iterations / threads can touch the same element without a barrier between them", witness=env), fq)
             else:
